@@ -14,6 +14,8 @@ import (
 func main() {
 	// the checks allocate millions of short-lived VMs; the default GC target makes 16 workers spend most of their time in GC
 	debug.SetGCPercent(800)
+	// ... but never let the heap run away: with a soft limit the collector works harder as the heap approaches it
+	debug.SetMemoryLimit(24 << 30)
 	if len(os.Args) < 3 {
 		fmt.Fprintln(os.Stderr, "usage: vcheck <property-id> <quick|thorough> | vcheck replay <file>")
 		os.Exit(2)
